@@ -12,7 +12,9 @@ reg(Spec("C15", "c15_timer.cpp", needs=("lib",),
          cases={"quick": 40000, "thorough": 1500000},
          rule="rapidcheck-generated histories (<=80 ops: mode/start/pause/MU writes, Restart, Tick x1..6, TickEvent, "
               "Skip(k) with k resolved against the horizon the timer reports: 0, 1, h-1, h, h/2, random) on the real "
-              "Teakra::Timer; oracle = cycle-exact model + twin doing k x Tick() for every Skip(k). Non-trivial = the "
+              "Teakra::Timer; oracle = cycle-exact model + twin doing k x Tick() for every Skip(k). core_timing_pair (20% of the cases): two "
+              "timers registered on one CoreTiming, configure/restart/pause/tick/CoreTiming::Skip(max): the returned k must be min(max, both "
+              "horizons) and both timers must equal a twin pair advanced by k x CoreTiming::Tick(). Non-trivial = the "
               "history contains a Skip(k>=1) on a running timer or a 1->0 crossing; distinct by hash of the op list.",
          assumptions=["time scale stays 0 and count mode < 4 (other values are deliberate ASSERTs in Tick/Restart)",
                       "Restart in free-running mode is outside the property's statement: reload or no-op are both accepted",
@@ -35,7 +37,7 @@ reg(Spec("C14", "c14_apbp.cpp", needs=("lib",),
               "and DSP-side MMIO accesses (REPLYi write/read-back, CMDi read, 0x0CC/0x0CE/0x0D0 writes, CIi bits of 0x0D4) through the "
               "host MMIO accessor, its 0x800 mirrors and the DSP data path, on one real Teakra instance re-initialised per case; "
               "after every op all observable APBP state is compared with a two-direction mailbox/semaphore model and the interrupt "
-              "rule is checked (ICU IRQ 14 / host handlers). Non-trivial = history with >=1 send and >=1 semaphore op; distinct by op-list hash.",
+              "rule is checked (ICU IRQ 14 / host handlers). DSP-side writes of arbitrary values to the two status registers are part of the histories (the flags are live views: no effect). Non-trivial = history with >=1 send and >=1 semaphore op; distinct by op-list hash.",
          assumptions=["channel index < 3 (the API contract)", "0x0D8 bit 9 (S', documented as the CPU-side flag but wired to the DSP-side one) is not checked",
                       "the signal flag of the dsp->cpu direction has no register; it is checked through the interrupt rule only"]))
 
@@ -61,7 +63,8 @@ reg(Spec("C02", "c02_decode.cpp", needs=("shim", "optable"), custom="exhaustive"
               "defined-ness, handler and need for a second word (interpreter = the table GetDecoderTable<Interpreter>() builds, i.e. what "
               "Run() dispatches through); O3 execution from 4 (quick) / 16 (thorough) (second word, start "
               "address, state) combinations: fetch log and pc advance equal the declared length, a one-word form is followed by a "
-              "fetch from A+1, and execution never trips the decoder's own consistency assertion; O4 every bit declared Unused<> in the table text, flipped, on 32/128 generated states: same text, same "
+              "fetch from A+1, and execution never trips the decoder's own consistency assertion; O5 the disassembler's text / length for "
+              "(word, second word) is the same right after another second word of the same opcode as after another opcode; O4 every bit declared Unused<> in the table text, flipped, on 32/128 generated states: same text, same "
               "execution, and declared set == set of bits the recorder shows to be don't-care. Non-trivial = defined word; distinct = the word.",
          assumptions=["control-transfer handlers (br, brr, call*, ret*, movpdw, mov_pc) are exempt from the pc-advance clause, not from the fetch clause",
                       "instructions ending in Unimplemented / deliberate ASSERT make no length claim",
@@ -132,7 +135,8 @@ reg(Spec("C10", "c10_addr.cpp", needs=("shim", "optable"),
               "register afterwards and data cell accessed vs the independent model. ar_step: the same for every form addressed through "
               "ar/arp words (all table entries with ArRn/ArStep/ArpRn/ArpStep operands except the bkrep frame-pointer forms, form-stratified): "
               "the annotated disassembler names registers, steps and modulo-disable flags (dmod, dmodi/j, e/d-mod), each named register "
-              "afterwards vs the model. modulo_walk: 2*(mod+1)+3 consecutive +1 / -1 / "
+              "afterwards vs the model, and (forms without an offset) every data access goes to the pre-step value of a named register, "
+              "bit-reversed where configured; a +s step whose configured value is 0 never moves the register, modulo or not. modulo_walk: 2*(mod+1)+3 consecutive +1 / -1 / "
               "mixed steps for generated (unit, mod, cmd, start): cyclic successor, stays in buffer, alignment bits fixed, one visit per "
               "cell per lap. Non-trivial = register changed and the case is inside the model; distinct by hash(opcode, state).",
          assumptions=["modulo addressing is specified only for +1 / -1 steps starting inside [base, base+mod]; other steps under modulo, starts "
@@ -160,7 +164,9 @@ reg(Spec("C09", "c09_loops.cpp", needs=("shim", "optable"),
               "levels, counts from an immediate / r5 / r6, all counts 0..40 + {255,256,0x7FFF,0xFFFF} + uniform, dynamic size <= ~4096 "
               "instructions, plus single loops with large counts and a tiny body); the looped program and the harness-unrolled one run "
               "to their end: same registers, same memory, loop state clear. loop_counter: a body storing lc / repc per iteration leaves a "
-              "sequence that steps down by one per iteration and ends at 0, with exactly N+1 iterations. frame_roundtrip: bkrepsto ; "
+              "sequence that steps down by one per iteration and ends at 0, with exactly N+1 iterations; the block-repeat variant also "
+              "inside 1..3 enclosing two-pass block repeats (counter read at nesting depth 1..4), counts from an immediate, r5, r6 or "
+              "the low / high half of b0 preset to a value wider than 32 bits; programs in page 0, 2 or 3. frame_roundtrip: bkrepsto ; "
               "bkreprst ([arrn] and [sp]) with 0..4 active frames holding 18-bit addresses is the identity. Non-trivial = the loop "
               "executed more instructions than the program has words / N >= 1 / >= 1 active frame.",
          assumptions=["a nested block repeat never ends on the same instruction as its enclosing block (a repeated single instruction may be the "
@@ -173,7 +179,9 @@ reg(Spec("C17", "c17_reset.cpp", needs=("shim", "optable"),
               "MMIOWrite (ICU routing, trigger, vectors; timer start/config incl. running timers and the directly writable counter "
               "mirror cells; DMA channel window; AHBM; APBP "
               "reply/semaphore/interrupt-disable; BTDMP enable/FIFO; MIU pages/base) / SendData / RecvData / Set/Clear/MaskSemaphore / "
-              "whole-register-state pokes / Run(<=200) of small programs that leave latches, the idle flag, banks and loop frames "
+              "driver-style composites (audio port: clock word, FIFO words, enable, then ~200 or ~4000 idle cycles, the frame period being "
+              "4096; timer: start, configuration with restart, optionally MU off again, a few cycles) / whole-register-state pokes / "
+              "Run(<=200) of small programs that leave latches, the idle flag, banks and loop frames "
               "dirty / AHBM host accessors; two real instances whose heap was pre-filled with different byte patterns; mode fresh: Q "
               "straight after construction on both; mode reset: construct;P;Reset;Q vs construct;Reset;Q; the observation (all "
               "registers incl. banks, memory digest, masked read-back of ~140 modelled MMIO registers, host views) and the ordered "
@@ -191,7 +199,7 @@ reg(Spec("C12", "c12_mmio.cpp", needs=("shim",),
               "DSP data path at the (relocatable) window base; CMDi reads, host SendData / SetSemaphore, and a bounded DMA start "
               "through 0x1DE = 0x40C0. After every op all ~130 side-effect-free documented registers are read back (through "
               "varying paths) and compared, on their documented bits, with the register-map model transcribed from the *.md "
-              "files. Non-trivial = an op changed the model; distinct by hash of the op list.",
+              "files. Half of the histories concentrate 70% of their writes on one peripheral block (timer 0/1, APBP, AHBM, MIU, DMA, ICU, audio 0/1, the coupling registers) with configuration values built from the documented fields. Non-trivial = an op changed the model; distinct by hash of the op list.",
          assumptions=["timer restart is only written together with a count mode < 4 (watchdog modes are a deliberate ASSERT)",
                       "bits of bit-field registers that no document describes are not compared; 0x0D8 bit 9 (S') is not compared",
                       "the DSP data path is used only while z_page = 0 and base + offset fits 16 bits (otherwise it is not the window)",
@@ -250,7 +258,7 @@ reg(Spec("C06", "c06_slicing.cpp", needs=("shim", "optable"),
               "ending in reti / retic / an idle loop; ICU routing of all 16 IRQs incl. vectored + context switch; core enables; both "
               "timers in all four modes with start values constructed around the first idle cycle (+-3) or from {0..40, <3000, "
               "<0x30000}, MU / pause bits; audio port with 0..16 queued words; n in [1, 20000]; 0..4 host events (SendData, "
-              "Set/Clear/MaskSemaphore, software trigger, DataWrite, RecvData) at generated cycle positions. Three runs from Reset: "
+              "Set/Clear/MaskSemaphore, software trigger, DataWrite, RecvData) at generated cycle positions. The false-condition self-branch falls through into ten instructions with visible effects before the real idle loop. Three runs from Reset: "
               "one Run per segment, a generated refinement with zero-length calls, n x Run(1) (n <= 5000) or a second refinement; "
               "full observation + ordered callback log compared at every boundary. Non-trivial = idle self-branch reached and a "
               "handler ran or an audio frame was delivered; distinct by hash of the encoded case.",
@@ -285,7 +293,8 @@ reg(Spec("C19", "c19_threads.cpp", variant="tsan", needs=("optable", "lib"), wor
               "SendData from inside a handler); the DSP thread runs an echo program whose APBP handler reads all CMDi, replies, "
               "echoes the semaphore, rewrites the interrupt-disable register and acknowledges (a generated subset of the channels is "
               "read; the others stay full after their first send; in half of the schedules the handler reads CMDi only when the "
-              "status register flags it ready, in half the host reads only after RecvDataIsReady), Sync ops = quiescent points "
+              "status register flags it ready, in half the host reads only after RecvDataIsReady, in half the APBP interrupt switches the "
+              "register context (ic0 = 1, retic)), Sync ops = quiescent points "
               "(host waits for >= 4000 further DSP cycles, then the last value of every echoed channel must have made the round "
               "trip and be consumed or still flagged ready). Oracle: ThreadSanitizer report "
               "(exit code 66) = violation; per reading thread the values read are sent values in non-decreasing order; after "
